@@ -239,6 +239,7 @@ class Interp:
         self.fn = fn
         self.key = keyname
         self.unmodelled: list[str] = []
+        self.loop_vars: set[str] = set()
         # locals that are plain names for a container (`queue = self._cache_queue`), in the method and its helpers
         self.cont_alias: dict[str, str] = {}
         for f in [fn, *model.helpers.values()]:
@@ -278,7 +279,8 @@ class Interp:
 
     def _keyname(self, node: ast.AST, st: St) -> str | None:
         if isinstance(node, ast.Name):
-            return node.id
+            # a loop variable stands for MANY keys: an operation keyed by it is not modelled (the method is left undecided)
+            return None if node.id in self.loop_vars else node.id
         return None
 
     def cond(self, test: ast.AST, st: St) -> list[tuple[bool, St]]:
@@ -394,7 +396,10 @@ class Interp:
             if c:
                 return [self._clear(st, c)], []
             self._scan_expr(stmt.iter, st)
+            bound = {n.id for n in ast.walk(stmt.target) if isinstance(n, ast.Name)} - self.loop_vars
+            self.loop_vars |= bound
             f1, r1 = self.run_block(stmt.body, [st])
+            self.loop_vars -= bound
             return _dedup([st, *f1]), r1
         if isinstance(stmt, ast.Try):
             # `try: v = self.cont[key]  except KeyError: <absent arm>`: membership decides which arm runs
@@ -529,12 +534,31 @@ class Interp:
                 self.unmodelled.append(f"container placed in a literal: {norm(x)[:50]}")
 
     def _clear_loop(self, stmt: ast.For) -> str | None:
-        # for k in <keys of X>: del self.X[k]
-        if len(stmt.body) == 1 and isinstance(stmt.body[0], ast.Delete) and isinstance(stmt.target, ast.Name):
-            t = stmt.body[0].targets[0]
-            if isinstance(t, ast.Subscript) and self._cont(t.value) and isinstance(t.slice, ast.Name) and t.slice.id == stmt.target.id:
-                return self._cont(t.value)
-        return None
+        # for k in <snapshot of the keys of X>: del self.X[k]   /   self.X.pop(k[, default])
+        if len(stmt.body) != 1 or not isinstance(stmt.target, ast.Name):
+            return None
+        b, var, c = stmt.body[0], stmt.target.id, None
+        if isinstance(b, ast.Delete) and len(b.targets) == 1:
+            t = b.targets[0]
+            if isinstance(t, ast.Subscript) and self._cont(t.value) and isinstance(t.slice, ast.Name) and t.slice.id == var:
+                c = self._cont(t.value)
+        elif isinstance(b, ast.Expr) and isinstance(b.value, ast.Call) and isinstance(b.value.func, ast.Attribute) and b.value.func.attr in ("pop", "remove", "discard") \
+                and self._cont(b.value.func.value) and b.value.args and isinstance(b.value.args[0], ast.Name) and b.value.args[0].id == var:
+            c = self._cont(b.value.func.value)
+        if c is None:
+            return None
+        # the loop must run over (a snapshot of) the keys of the same container
+        it = stmt.iter
+        if isinstance(it, ast.Name):
+            defs = [a.value for a in ast.walk(self.fn.node) if isinstance(a, ast.Assign) and len(a.targets) == 1 and isinstance(a.targets[0], ast.Name) and a.targets[0].id == it.id]
+            if len(defs) != 1:
+                return None
+            it = defs[0]
+        while isinstance(it, ast.Call) and dotted(it.func) in ("list", "tuple", "set", "sorted", "frozenset") and len(it.args) == 1:
+            it = it.args[0]
+        if isinstance(it, ast.Call) and isinstance(it.func, ast.Attribute) and it.func.attr in ("keys", "copy") and not it.args:
+            it = it.func.value
+        return c if self._cont(it) == c else None
 
     # -- abstract operations
     def _add(self, st: St, k: str, c: str) -> St:
@@ -1089,7 +1113,11 @@ def rule_stores(ctx: Ctx) -> None:
                         stores.add(nd_)
                         paired_value[nd_] = cells[0]
         if not stores:
-            anywhere = [n for _f, n in Scope(ctx, fn).walk() if isinstance(n, ast.Assign) and any(isinstance(t, ast.Subscript) and _self_attr(t.value) == "_cache_dict" for t in n.targets)]
+            # positively nothing: no subscript store into the table, no store keyed by the key into anything that could alias it, no
+            # update()/setdefault()/__setitem__ call
+            anywhere = [n for _f, n in Scope(ctx, fn).walk() if (isinstance(n, (ast.Assign, ast.AugAssign, ast.AnnAssign)) and any(isinstance(t, ast.Subscript) and (_self_attr(t.value) == "_cache_dict" or not _self_attr(t.value))
+                                                                                                                       for t in (n.targets if isinstance(n, ast.Assign) else [n.target])))
+                        or (isinstance(n, ast.Call) and isinstance(n.func, ast.Attribute) and n.func.attr in ("update", "setdefault", "__setitem__"))]
             ctx.tri("8-stores", fn, fn.node, False, not anywhere, "", f"{cname}.put never stores into self._cache_dict", "the store happens in a helper; path coverage not decided", key=f"{cname}.put stores")
             continue
         ok = cfg.must_pass(ENTRY, EXIT, stores, normal_only=True)
